@@ -1,4 +1,4 @@
-//@@ unit props=C05,C06,C08,C17,C01,C02,C03,C14
+//@@ unit props=C05,C06,C08,C17,C01,C02,C03,C04,C14
 // Unit range: the `Range<T>` data structure of src/lib.rs (verbatim text), generic over `T: CellType`.  Serves C05;
 // its contracts (Range::range, from_sparse, accessors) are what the C08 / C17 units call.
 //
@@ -233,46 +233,46 @@ proof fn lemma_idx(i: int, j: int, h: int, w: int)
         //# C05.empty_is_empty
         !r.nonempty(),
 //@@ end
-//@@ fn src/lib.rs Range::is_empty props=C05 ret=r
+//@@ fn src/lib.rs Range::is_empty props=C05,C01,C02,C03,C04 ret=r
 //@@ sig
     ensures
         //# C05.is_empty
         r == !self.nonempty(),
 //@@ end
-//@@ fn src/lib.rs Range::start props=C05 ret=r
+//@@ fn src/lib.rs Range::start props=C05,C01,C02,C03,C04 ret=r
 //@@ sig
     ensures
         //# C05.start
         r == (if self.nonempty() { Some(self.lo()) } else { None }),
 //@@ end
-//@@ fn src/lib.rs Range::end props=C05 ret=r
+//@@ fn src/lib.rs Range::end props=C05,C01,C02,C03,C04 ret=r
 //@@ sig
     ensures
         //# C05.end
         r == (if self.nonempty() { Some(self.hi()) } else { None }),
 //@@ end
-//@@ fn src/lib.rs Range::width props=C05 ret=r
+//@@ fn src/lib.rs Range::width props=C05,C01,C02,C03,C04 ret=r
 //@@ sig
     requires self.spans_ok(),
     ensures
         //# C05.width
         r == self.sw(),
 //@@ end
-//@@ fn src/lib.rs Range::height props=C05 ret=r
+//@@ fn src/lib.rs Range::height props=C05,C01,C02,C03,C04 ret=r
 //@@ sig
     requires self.spans_ok(),
     ensures
         //# C05.height
         r == self.sh(),
 //@@ end
-//@@ fn src/lib.rs Range::get_size props=C05 ret=r
+//@@ fn src/lib.rs Range::get_size props=C05,C01,C02,C03,C04 ret=r
 //@@ sig
     requires self.spans_ok(),
     ensures
         //# C05.get_size
         r.0 == self.sh() && r.1 == self.sw(),
 //@@ end
-//@@ fn src/lib.rs Range::get props=C05 ret=r
+//@@ fn src/lib.rs Range::get props=C05,C01,C02,C03,C04 ret=r
 //@@ sig
     requires self.wf(),
     ensures
@@ -490,7 +490,7 @@ proof fn lemma_idx(i: int, j: int, h: int, w: int)
         //# C05.range_values
         lawful::<T>() ==> forall|i: int, j: int| r.has(i, j) ==> r.at(i, j) == (if self.has(i, j) { self.at(i, j) } else { dflt::<T>() }),
 //@@ end
-//@@ fn src/lib.rs Range::get_value props=C05 ret=r
+//@@ fn src/lib.rs Range::get_value props=C05,C01,C02,C03,C04 ret=r
 //@@ sig
     requires self.wf(),
     ensures
